@@ -9,7 +9,9 @@
  *       is an error (exit 1) unless -m (then it contributes '!').
  *       -x EXTRA : an undeclared input; contents appended after ';' ('!' if
  *                  missing).  -d / -i write a Makefile / dependency-info style
- *                  dependency file naming every EXTRA (-d may be repeated).
+ *                  dependency file naming every EXTRA (-d and -i may be repeated).
+ *       -p       : partition: with N dependency files the k-th names only the
+ *                  EXTRAs whose index is congruent to k modulo N
  *       -s       : directory inputs contribute their STRUCTURE only: '{' name ',' ... '}'
  *                  (nested directories recursively), no file contents
  *       -n WORD  : ignored (lets a description vary its argument list without
@@ -28,6 +30,8 @@
  *                fail-after       write all outputs, then exit 1
  *                kill             SIGKILL self before writing
  *                kill-after       SIGKILL self after writing outputs
+ *                sig N            raise signal N (default disposition, no core file) before writing
+ *                sig-after N      raise signal N after writing outputs
  *                need PATH        exit 1 (before writing) if PATH does not exist
  *                gate             open FIFO .gate.ready for writing, then FIFO
  *                                 .gate.go for reading (blocks until the driver
@@ -36,6 +40,7 @@
  */
 #define _GNU_SOURCE
 #include <dirent.h>
+#include <sys/resource.h>
 #include <errno.h>
 #include <fcntl.h>
 #include <signal.h>
@@ -274,8 +279,8 @@ int main(int argc, char** argv) {
   if (strcmp(argv[1], "cat") || argc < 3) return 2;
   const char* tag = argv[2];
   int allow_missing = 0;
-  const char *deps_make[4] = {0}, *deps_info = NULL;
-  int ndeps = 0;
+  const char *deps_make[4] = {0}, *deps_info[4] = {0};
+  int ndeps = 0, ninfo = 0, partition = 0;
   const char* extras[16];
   int nextra = 0;
   int i = 3;
@@ -284,7 +289,8 @@ int main(int argc, char** argv) {
     else if (!strcmp(argv[i], "-s")) names_only = 1;
     else if (!strcmp(argv[i], "-d") && i + 1 < argc) { if (ndeps < 4) deps_make[ndeps++] = argv[++i]; else ++i; }
     else if (!strcmp(argv[i], "-n") && i + 1 < argc) ++i;
-    else if (!strcmp(argv[i], "-i") && i + 1 < argc) deps_info = argv[++i];
+    else if (!strcmp(argv[i], "-i") && i + 1 < argc) { if (ninfo < 4) deps_info[ninfo++] = argv[++i]; else ++i; }
+    else if (!strcmp(argv[i], "-p")) partition = 1;
     else if (!strcmp(argv[i], "-x") && i + 1 < argc) { if (nextra < 16) extras[nextra++] = argv[++i]; }
     else break;
   }
@@ -296,8 +302,16 @@ int main(int argc, char** argv) {
 
   char* carg = NULL;
   const char* kind = control(tag, &carg);
-  int fail_after = 0, kill_after = 0;
+  int fail_after = 0, kill_after = 0, sig_after = 0;
   if (kind) {
+    if (!strcmp(kind, "sig") || !strcmp(kind, "sig-after")) {
+      struct rlimit rl = {0, 0};
+      setrlimit(RLIMIT_CORE, &rl);
+      int signo = carg ? atoi(carg) : SIGTERM;
+      signal(signo, SIG_DFL);
+      if (!strcmp(kind, "sig")) { raise(signo); pause(); }
+      sig_after = signo;
+    }
     if (!strcmp(kind, "fail-before")) { dprintf(2, "vcmd: %s: directed failure\n", tag); return 1; }
     if (!strcmp(kind, "kill")) { raise(SIGKILL); pause(); }
     if (!strcmp(kind, "need")) {
@@ -342,6 +356,7 @@ int main(int argc, char** argv) {
     bputs(&d, out0 < sep ? argv[out0] : "x");
     bputs(&d, ":");
     for (int k = 0; k < nextra; ++k) {
+      if (partition && k % ndeps != dm) continue;
       bputs(&d, " ");
       for (const char* c = extras[k]; *c; ++c) {
         if (*c == ' ' || *c == '#' || *c == '\\') bput(&d, "\\", 1);
@@ -352,14 +367,19 @@ int main(int argc, char** argv) {
     bputs(&d, "\n");
     write_file(deps_make[dm], d.p, d.n);
   }
-  if (deps_info) {
+  for (int di = 0; di < ninfo; ++di) {
     struct buf d = {0};
     bput(&d, "\0vcmd\0", 6);
-    for (int k = 0; k < nextra; ++k) { bput(&d, "\x10", 1); bput(&d, extras[k], strlen(extras[k]) + 1); }
-    write_file(deps_info, d.p, d.n);
+    for (int k = 0; k < nextra; ++k) {
+      if (partition && k % ninfo != di) continue;
+      bput(&d, "\x10", 1);
+      bput(&d, extras[k], strlen(extras[k]) + 1);
+    }
+    write_file(deps_info[di], d.p, d.n);
   }
 
   if (kill_after) { raise(SIGKILL); pause(); }
+  if (sig_after) { raise(sig_after); pause(); }
   if (fail_after) { dprintf(2, "vcmd: %s: directed failure after writing outputs\n", tag); return 1; }
   return 0;
 }
